@@ -32,6 +32,13 @@ Two further alphabets are crossed with the structures (same oracle clauses, noth
     written as a full alpha matrix with explicit zeros (alternative listed in a nest it does not belong to).  The
     clauses are evaluated at the supplied values: whatever the library decides from the initial values when the
     expression is built must not change the model.
+  * the way the availability conditions are written (AVFORMS): besides data columns (Variables) and None, one availability
+    pattern written as plain Python numbers (int / float / bool), as Numeric objects, as numbers for some alternatives and
+    Variables for the others, and as products of expressions (column x condition on another column).  Every availability
+    pattern - the ones that remove alternatives included - is written in these forms and handed to BOTH models of a
+    pair (the logit of clause (a) included), to every public entry point, and to the generating function and the terms of
+    clause (e).  Whatever a model function decides from the type of the conditions when the expression is built must
+    not change the model.
 """
 from __future__ import annotations
 
@@ -49,7 +56,8 @@ ID = 'C06'
 LEVEL = 'exploration'
 TECHNIQUE = ('bounded exhaustive enumeration of nest structures x parameter grids x availability patterns x utility grids x '
              'every public entry point of the family (old names included) x parameters evaluated at / away from their initial '
-             'values; paired evaluation of the model functions by the real engine (reductions, scale one, tuple syntax) and real '
+             'values x the availability conditions written as data columns / None / Python numbers / Numeric objects / numbers '
+             'and columns / expressions; paired evaluation of the model functions by the real engine (reductions, scale one, tuple syntax) and real '
              'differentiation of the published generating function by the engine gradient, against closed forms')
 RULE = ('one case = one (oracle clause, pair of model functions, nest structure, parameter assignment, availability pattern); '
         'every utility vector x chosen alternative under it is one compared value vector (counted in evaluations). '
@@ -57,7 +65,9 @@ RULE = ('one case = one (oracle clause, pair of model functions, nest structure,
         'available and the structure has a nest with parameter != 1 or an alternative outside every nest). '
         'The pair of model functions names the public entry point really called (ENTRIES: 22 names, term-level functions '
         'through mev and logmev) and the structure records whether the parameters are free parameters moved away from '
-        'their initial values (and with which initial values). distinct = distinct such keys.')
+        'their initial values (and with which initial values) and, when the availability conditions are not data columns, '
+        'the form they are written in (AVFORMS: int, float, bool, Numeric, two mixtures of numbers and columns, '
+        'expressions). distinct = distinct such keys.')
 ASSUMPTIONS = [
     'grids of the per-seed alphabets of C05 (utilities, nest parameters, scale, alpha splits); J <= 3 quick, J <= 4 thorough; '
     'cross-nested structures: 2 nests (J <= 3 quick, J <= 4 thorough) or 3 nests (J = 2 quick, J <= 3 thorough), reduced '
@@ -79,6 +89,20 @@ ASSUMPTIONS = [
     'thorough: two assignments x all three modes except for the largest families 3 nests x J = 3 and 2 nests x J = 4)',
     'old names of the generating function / of the terms and the scaled terms with mu = 1 (GEN_ENTRIES, 5 combinations) '
     'in the derivative clause: every combination for J <= 3, rotating with the structure for J = 4',
+    'availability forms (AVFORMS, 7 forms; availability values are 0 / 1 - the cross-nested functions use the condition as '
+    'a weight, other non-zero values are outside the domain): every availability pattern is its own expression, evaluated '
+    'on every utility vector x chosen alternative; nest parameters: all ones and one rotating assignment without ones. '
+    'Clauses (a)-(d) on nested structures: quick - J = 2 every structure x pattern x 2 assignments x one all-number form '
+    'and one other form rotating with (structure, assignment, pattern); J = 3 every third structure (rotating with the '
+    'seed) plus the single nest holding everything, all ones with an all-number form / the other assignment with another '
+    'form; thorough - J = 2 every form; J = 3 every structure, two rotating forms for both assignments and all seven for '
+    'the all-ones assignment; J = 4 one form and one assignment per (structure, pattern), rotating.  The scaled versions '
+    'mu != 1 of (b), (d) only in thorough, J <= 3, for the rotating forms.  Entry points: J = 2 (quick: one pattern and one '
+    'form per structure; thorough: every pattern x form) and J = 3 (thorough: every second pattern, one form).  Genuinely '
+    'cross-nested structures (c), (d): 2 nests x J = 2 (quick: every second structure, rotating with the seed, one form per '
+    'pattern; thorough: every form), thorough also 3 nests x J = 2 and 2 nests x J = 3 with one alpha split and one form '
+    'per (structure, pattern).  Derivative clause (e): every structure and pattern, J <= 3 quick / J <= 4 thorough, two '
+    'rotating forms (thorough J <= 3: every form), names of GEN_ENTRIES rotating',
 ]
 ANCHOR_FILES = ['src/biogeme/models/nested.py', 'src/biogeme/models/cnl.py', 'src/biogeme/models/mev.py',
                 'src/biogeme/models/logit.py', 'src/biogeme/nests.py']
@@ -716,6 +740,47 @@ def check_generating(alph, alts, alone, nests, mus, table, rec, syntax='obj', av
 
 
 # --------------------------------------------------------------------------- tasks
+def avform_structures(tier, seed, J, n):
+    """nest structures of the part 'avforms': all of them, except quick with J = 3: every third structure (rotating with
+    the seed, so that the five seeds together reach all of them) and the structure with one nest holding everything."""
+    if tier == 'quick' and J == 3:
+        return [si for si in range(n) if (si + int(seed)) % 3 == 0 or si == 1]
+    return list(range(n))
+
+
+def avform_cnl_config(tier):
+    """(J, number of nests, number of alpha splits, structures per task) of the part 'avforms_cnl'"""
+    if tier == 'quick':
+        return [(2, 2, 3, 12)]
+    return [(2, 2, 3, 4), (2, 3, 1, 6), (3, 2, 1, 6)]
+
+
+def avform_plan(tier, J, si, n_asg, n_pats):
+    """Part 'avforms': the (assignment index, pattern index, availability form, light) of one nest structure.
+    Assignment 0 is the all-ones one (clause (a)).  k = si + mi + pi rotates the forms."""
+    out = []
+    for pi in range(n_pats):
+        for mi in range(n_asg):
+            k = si + mi + pi
+            two = avforms_for(k, False)
+            if tier == 'quick':
+                if J == 2:
+                    out += [(mi, pi, avf, True) for avf in two]
+                else:
+                    # all ones: one all-number form; the other assignment: one of the other forms
+                    out.append((mi, pi, two[0] if (mi == 0 and n_asg > 1) else two[1] if n_asg > 1 else two[pi % 2], True))
+            elif J == 2:
+                out += [(mi, pi, avf, avf not in two) for avf in AVFORMS]
+            elif J == 3:
+                out += [(mi, pi, avf, avf != two[k % 2]) for avf in two]
+                if mi == 0:
+                    out += [(mi, pi, avf, True) for avf in AVFORMS if avf not in two]
+            else:
+                if mi == k % n_asg:
+                    out.append((mi, pi, two[(k // 2) % 2], True))
+    return out
+
+
 def tasks(tier, seed):
     alph = B.alphabet(seed)
     quick = tier == 'quick'
@@ -755,20 +820,25 @@ def tasks(tier, seed):
     for J in range(2, Jmax + 1):
         structs = R.nested_structures(alph['labels'][:J])
         npat = 2 ** J - 1
-        for ch in B._chunks(range(len(structs)), ({2: 2, 3: 2, 4: 2} if quick else {2: 1, 3: 1, 4: 2})[J]):
+        sel = avform_structures(tier, seed, J, len(structs))
+        for ch in B._chunks(sel, ({2: 2, 3: 1} if quick else {2: 1, 3: 1, 4: 3})[J]):
             t.append(dict(part='avforms', J=J, structs=ch, seed=seed, tier=tier))
         for ch in B._chunks(range(len(structs)), {2: 5, 3: 4, 4: 4}[J]):
             t.append(dict(part='avforms_gen', J=J, structs=ch, seed=seed, tier=tier))
         if J <= (2 if quick else 3):
             for si in range(len(structs)):
-                for pch in B._chunks(range(npat), 3 if quick else (1 if J == 2 else 4)):
+                if quick:
+                    pchunks = [[(si + int(seed)) % npat]]            # one pattern per structure, rotating
+                elif J == 2:
+                    pchunks = [[pi] for pi in range(npat)]
+                else:
+                    pchunks = B._chunks([pi for pi in range(npat) if pi % 2 == si % 2], 2)
+                for pch in pchunks:
                     t.append(dict(part='avforms_entry', J=J, structs=[si], pats=pch, seed=seed, tier=tier))
-    for J, M, ns, pa, per, _sc in B.cnl_config(tier):
-        if (J, M) not in ([(2, 2)] if quick else [(2, 2), (2, 3), (3, 2)]):
-            continue
+    for J, M, ns, per in avform_cnl_config(tier):
         n = len(R.cnl_structures(alph['labels'][:J], M, alph['splits'][:ns]))
-        for ch in B._chunks(range(n), 12 if J == 2 else 6):
-            t.append(dict(part='avforms_cnl', J=J, M=M, ns=ns, pa=pa, structs=ch, seed=seed, tier=tier))
+        for ch in B._chunks(range(n), per):
+            t.append(dict(part='avforms_cnl', J=J, M=M, ns=ns, structs=ch, seed=seed, tier=tier))
     return t
 
 
@@ -905,17 +975,12 @@ def run_task(task):
         # clauses (a)-(d) with the availability conditions of BOTH models of every pair written in one of AVFORMS
         structs = R.nested_structures(alts)
         base = _table(alph, J, tier, small=True)
-        every = J == 2 or (tier != 'quick' and J <= 3)
         for si in task['structs']:
             alone, nests = structs[si]
-            for mi, mus in enumerate(assignments(alph, len(nests), si, full=False)):
-                for pi, pat in enumerate(base.pats):
-                    t1 = B.Table(alts, base.us, [pat])
-                    k = si + mi + pi
-                    rotating = avforms_for(k, False)
-                    for avf in avforms_for(k, every):
-                        heavy = tier != 'quick' and J <= 3 and avf in rotating     # with the scaled versions mu != 1
-                        check_nested_structure(alph, alts, alone, nests, mus, t1, rec, tier, si + mi, avf=avf, light=not heavy)
+            asg = assignments(alph, len(nests), si, full=False)
+            for mi, pi, avf, light in avform_plan(tier, J, si, len(asg), len(base.pats)):
+                t1 = B.Table(alts, base.us, [base.pats[pi]])
+                check_nested_structure(alph, alts, alone, nests, asg[mi], t1, rec, tier, si + mi, avf=avf, light=light)
         rec.sample(dict(part='avforms', alts=alts, first=structs[task['structs'][0]], availability_forms=AVFORMS))
     elif task['part'] == 'avforms_entry':
         structs = R.nested_structures(alts)
@@ -927,10 +992,10 @@ def run_task(task):
                 t1 = B.Table(alts, base.us, [base.pats[pi]])
                 k = si + pi
                 if tier != 'quick' and J == 2:
-                    combos = [(mus, avf) for mus in asg for avf in AVFORMS]
+                    # every form; the all-ones assignment (clause (a)) and the other one alternate
+                    combos = [(asg[(k + fi) % len(asg)], avf) for fi, avf in enumerate(AVFORMS)]
                 else:
-                    # one form per (structure, pattern): the all-number forms and the others alternate with k; the
-                    # all-ones assignment (clause (a)) and the other one alternate with the patterns of a structure
+                    # one form per (structure, pattern): the all-number forms and the others alternate with k
                     combos = [(asg[(k // 2) % len(asg)], avforms_for(k // 2, False)[k % 2])]
                 for ci, (mus, avf) in enumerate(combos):
                     check_entry_points(alph, alts, alone, nests, mus, t1, rec, avf, k + ci)
@@ -938,16 +1003,20 @@ def run_task(task):
     elif task['part'] == 'avforms_cnl':
         structs = R.cnl_structures(alts, task['M'], alph['splits'][:task['ns']])
         base = _table(alph, J, tier, small=True)
+        every = tier != 'quick' and (J, task['M']) == (2, 2)
         for si in task['structs']:
             alone, nests = structs[si]
             if not any(0.0 < a < 1.0 for n in nests for a in n.values()):
                 rec.count('cnl_structure_without_cross_membership_covered_by_nested_part')
                 continue
+            if tier == 'quick' and (si + int(task['seed'])) % 2:
+                rec.count('cnl_structure_left_to_the_other_seeds_and_the_thorough_tier')
+                continue
             mus_list = B._cnl_mus(alph, task['M'], 'reduced')
             mus = list(mus_list[si % len(mus_list)])
             for pi, pat in enumerate(base.pats):
                 t1 = B.Table(alts, base.us, [pat])
-                for avf in avforms_for(si + pi, tier != 'quick' and (J, task['M']) == (2, 2)):
+                for avf in (AVFORMS if every else [AVFORMS[(si + pi) % len(AVFORMS)]]):
                     check_cnl_structure(alph, alts, alone, nests, mus, t1, rec, tier, si, avf=avf)
         rec.sample(dict(part='avforms_cnl', alts=alts, M=task['M'], first=structs[task['structs'][0]]))
     elif task['part'] == 'avforms_gen':
